@@ -486,7 +486,7 @@ def run(tier, only=None):
         bound = {"accumulate": "full {text,nc} x 6 windows x 2 axes x -i, dev(%s) over missing cells" % k,
                  "ens2prob": "full {text,nc} x 1-3 members x ordered threshold selections x ordered level selections x -p, dev(%s) over missing obs/member/fcst" % k,
                  "window": "full {text,nc} x {default, below=, below, within, =within=} x 3 thresholds x %s lead-time value patterns over {0, 0.5, 1, 2}^4 (irregular lead times), dev(%s) over missing cells" % ("37 of the 256" if tier == "quick" else "all 256", k),
-                 "text2nc": "2^5 field subsets x 3 missing-cell variants x 2 row orders (the round trip of C10)",
+                 "text2nc": "2^5 field subsets x 3 missing-cell variants x 2 row orders x 5 x0/x1 declarations (the round trip of C10)",
                  "expandverif": "full {text,nc} x 9 -i lists x 36 -lt lists (ascending subsets and permuted / descending ones) x 2 input init hours x {ascending, descending, rotated} input time axis of three days, dev(1) missing obs"}[name]
         subs.append(core.Sub.from_e1(name, st, bound=bound, rule="one execution = one script run, every output cell compared with the reference transformation",
                                      required_flags=("pit-missing-obs", "decimal-tie") if name == "ens2prob" else ("ordinary-size",) if name == "accumulate" else (), wall=time.time() - t0))
